@@ -60,6 +60,7 @@ let run_script cfgw ops =
       | "V" :: n :: r -> emit (show_out (st (OReserve (z n, None)))); go r
       | "W" :: n :: b :: r -> emit (show_out (st (OReserve (z n, Some (nat_of_int (int_of_string b)))))); go r
       | "C" :: f :: r -> emit (show_out (st (OClear (f = "1")))); go r
+      | "B" :: f :: r -> emit (show_out (ws (WB (OClear (f = "1"))))); go r
       | "T" :: r -> emit (show_out (st OTraverse)); go r
       | "U" :: r -> emit (show_out (ws (WB OTraverse))); go r
       | "L" :: m :: q :: r ->
